@@ -354,6 +354,14 @@ func init() {
 		})
 	}
 
+	// ---- repo stubs (DESIGN 2.6 tier 3) ----
+	nop := func(ex *Exec, fr *Frame, site ssa.Instruction, a []Value) Value {
+		t := ex.eng.lookupType(modPath, "verifNopLogger")
+		return Iface{t: t, v: Struct{}}
+	}
+	reg(modPath+".NewZapLogger", nop)
+	reg(modPath+"/internal/log.NewZapLogger", nop)
+
 	// ---- io ----
 	reg("io.ReadAll", func(ex *Exec, fr *Frame, site ssa.Instruction, a []Value) Value {
 		r := a[0].(Iface)
@@ -766,4 +774,75 @@ func digitsOf(t *Term) *Term {
 		pow /= 10
 	}
 	return r
+}
+
+// ---- reflect (only what isZeroStruct needs): a reflect.Value carries the boxed operand in its ptr slot ----
+
+func (ex *Exec) isZeroVal(v Value) *Term {
+	switch x := v.(type) {
+	case *Term:
+		switch {
+		case x.Sort == SBool:
+			return tNot(x)
+		case x.Sort == SStr:
+			return tEq(x, mkStr(""))
+		case x.Sort == SInt:
+			return tEq(x, mkInt(0))
+		case x.Sort == SF64:
+			return tSame(x, mkF64(0))
+		case x.Sort == SF32:
+			return tSame(x, mkF32(0))
+		default:
+			return tEq(x, mkBV(x.Sort, 0))
+		}
+	case *Value:
+		return mkBool(x == nil)
+	case Iface:
+		return mkBool(x.t == nil)
+	case Slice:
+		return mkBool(x.nil)
+	case ByteStr:
+		return tFalse
+	case *MapObj:
+		return mkBool(x == nil)
+	case *ChanObj:
+		return mkBool(x == nil)
+	case *Closure:
+		return mkBool(x == nil)
+	case *ssa.Function:
+		return mkBool(x == nil)
+	case nil:
+		return tTrue
+	case Struct:
+		r := tTrue
+		for _, f := range x {
+			r = tAnd(r, ex.isZeroVal(f))
+		}
+		return r
+	case Array:
+		r := tTrue
+		for _, f := range x {
+			r = tAnd(r, ex.isZeroVal(f))
+		}
+		return r
+	case *Rope:
+		return tFalse
+	}
+	panic(unsupported(fmt.Sprintf("isZero of %T", v)))
+}
+
+func init() {
+	reg("reflect.ValueOf", func(ex *Exec, fr *Frame, site ssa.Instruction, a []Value) Value {
+		t := ex.eng.lookupType("reflect", "Value")
+		st := zero(t).(Struct)
+		st[1] = a[0].(Iface)
+		return st
+	})
+	reg("(reflect.Value).IsZero", func(ex *Exec, fr *Frame, site ssa.Instruction, a []Value) Value {
+		i, ok := a[0].(Struct)[1].(Iface)
+		if !ok || i.t == nil {
+			panic(&goPanic{val: ex.makeError(mkStr("reflect: call of reflect.Value.IsZero on zero Value")), descr: "reflect: call of reflect.Value.IsZero on zero Value", site: ex.site(site)})
+		}
+		return ex.isZeroVal(i.v)
+	})
 }
